@@ -31,7 +31,7 @@
 EXTENDS Integers, Sequences, FiniteSets, TLC, Json
 
 CONSTANTS
-  NPaths,        \* number of file paths in play (1..3)
+  NPaths,        \* number of file paths in play (1..4); the 4th lies in a directory the configuration excludes
   Kinds,         \* subset of {"rec", "alr"}
   Names,         \* rule names
   Bodies,        \* expression tokens, see Uses
@@ -44,10 +44,13 @@ CONSTANTS
   MaxBaseAdv,    \* commits on the base branch after the fork
   OpSet,         \* enabled operation kinds
   ForkFdis,      \* BOOLEAN: fork files may carry a file/disable comment
+  TombRename,    \* BOOLEAN: a file may be renamed onto a path deleted earlier on the branch (no verdict then, binding only)
   MatchMode      \* "greedy" (matchEntries as pinned) | "twopass" (fixes/f5-matchentries.patch) | "any" (JUDGE: either)
 
 \* file paths in lexical order (the order filepath.Glob/WalkDir yields them)
-PathOrder == SubSeq(<<"a.yml", "b.yml", "c.yml">>, 1, NPaths)
+PathOrder == SubSeq(<<"a.yml", "b.yml", "c.yml", "drafts/d.yml">>, 1, NPaths)
+\* parser { exclude = ["^drafts/.*"] }: git.PathFilter.IsPathAllowed is false for these
+Excluded == {"drafts/d.yml"}
 Paths == {PathOrder[i] : i \in 1..Len(PathOrder)}
 NoPath == ""          \* git.Path.Name == ""
 Fresh  == "new"       \* identity of a file that has no version at the fork point
@@ -64,13 +67,15 @@ VARIABLES
   changes,   \* Impl: []*git.FileChange as folded so far
   origin,    \* Doc: [Paths -> path at the fork point whose file now lives here | Fresh | NoPath (no file)]
   tomb,      \* Doc: [Paths -> identity of the file deleted at this path and not replaced since | NoPath]
+  ambig,     \* Doc: a file was renamed onto a path deleted earlier on the branch - the statement does not say which
+             \*      file the new one continues, so nothing is claimed about such histories
   prevTree,  \* tree before the last branch commit (RevertLast)
   lastNS,    \* name-status of the last branch commit
   ncommit, nbase,
   log        \* GEN: the operations performed
 
-vars == <<phase, fork, tree, changes, origin, tomb, prevTree, lastNS, ncommit, nbase, log>>
-MCView == <<phase, fork, tree, changes, origin, tomb, prevTree, lastNS, ncommit, nbase>>
+vars == <<phase, fork, tree, changes, origin, tomb, ambig, prevTree, lastNS, ncommit, nbase, log>>
+MCView == <<phase, fork, tree, changes, origin, tomb, ambig, prevTree, lastNS, ncommit, nbase>>
 
 -----------------------------------------------------------------------------
 (* Helpers                                                                 *)
@@ -85,12 +90,13 @@ Flatten(ss) == IF ss = <<>> THEN <<>> ELSE Head(ss) \o Flatten(Tail(ss))
 Content(r) == [kind |-> r.kind, name |-> r.name, body |-> r.body, lab |-> r.lab, cmt |-> r.cmt]
 
 \* Layout (gitrepo.Render): [file/disable line] groups: / - name: g / rules: / then per rule
-\* [pad line] [control comment line] and four lines (name, expr, labels:, label).
-PreLen(r) == (IF r.pad = 0 THEN 0 ELSE 1) + (IF r.cmt = "none" THEN 0 ELSE 1)
-RECURSIVE PreSum(_, _)
-PreSum(rs, k) == IF k = 0 THEN 0 ELSE PreLen(rs[k]) + PreSum(rs, k - 1)
-FirstLine(f, k) == (IF f.fdis THEN 1 ELSE 0) + 3 + 4 * (k - 1) + PreSum(f.rules, k) + 1
-LastLine(f, k)  == FirstLine(f, k) + 3
+\* [pad line] [control comment line] and the rule lines (name, expr, labels:, one line per label; l3 has two labels).
+PreLen(r)  == (IF r.pad = 0 THEN 0 ELSE 1) + (IF r.cmt = "none" THEN 0 ELSE 1)
+RuleLen(r) == IF r.lab = "l3" THEN 5 ELSE 4
+RECURSIVE LinesBefore(_, _)
+LinesBefore(rs, k) == IF k = 0 THEN 0 ELSE PreLen(rs[k]) + RuleLen(rs[k]) + LinesBefore(rs, k - 1)
+FirstLine(f, k) == (IF f.fdis THEN 1 ELSE 0) + 3 + LinesBefore(f.rules, k - 1) + PreLen(f.rules[k]) + 1
+LastLine(f, k)  == FirstLine(f, k) + RuleLen(f.rules[k]) - 1
 ExprLine(f, k)  == FirstLine(f, k) + 1
 
 \* discovery.readRules: one entry per rule, DisabledChecks from the file-level comments.
@@ -103,6 +109,7 @@ EntriesOf(path, f) ==
 (* Impl: git.Changes - fold of one name-status line                        *)
 \* ns = [status, src, dst]; c = commit number; t = tree before the commit, t2 = tree after it.
 Fold(chs, ns, c, t, t2) ==
+  IF ns.dst \in Excluded THEN chs ELSE                          \* !filter.IsPathAllowed(dstPath): line skipped
   LET hits == {k \in 1..Len(chs) : chs[k].after = ns.src}        \* getChangeByPath(changes, srcPath)
       afile == IF ns.status = "D" THEN AbsentFile ELSE t2[ns.dst] \* Body.After (not read for FileDeleted)
   IN
@@ -198,7 +205,8 @@ ChangeEntries(ch, mode) ==
 ChangedEntries(chs, mode) == Flatten([k \in 1..Len(chs) |-> ChangeEntries(chs[k], mode)])
 
 \* discovery.GlobFinder over the HEAD working tree: every rule, state noop
-GlobEntries(t) == Flatten([i \in 1..Len(PathOrder) |-> EntriesOf(PathOrder[i], t[PathOrder[i]])])
+GlobEntries(t) == Flatten([i \in 1..Len(PathOrder) |-> IF PathOrder[i] \in Excluded THEN <<>>
+                                                       ELSE EntriesOf(PathOrder[i], t[PathOrder[i]])])
 
 IsSame(x, y) == x.rule.kind = y.rule.kind /\ x.first = y.first /\ x.last = y.last   \* Rule.IsSame
 RECURSIVE Merge(_, _, _)
@@ -235,6 +243,7 @@ RefAcceptOf(hf, bf, org, p, k) ==
       gH  == Cardinality({j \in 1..Len(hf.rules) : Key(hf.rules[j]) = key})
   IN
   IF org = Fresh THEN {"added"}                                  \* the file has no version at the fork point
+  ELSE IF org \in Excluded THEN Changed                          \* the file entered the linted set on this branch
   ELSE IF gH = 1 /\ gB <= 1                                      \* the rule's counterpart is unambiguous
   THEN IF nB = 1 THEN (IF moved THEN {"moved"} ELSE {"noop"})
        ELSE IF gB = 1 THEN (IF moved THEN {"modified", "moved"} ELSE {"modified"})
@@ -249,7 +258,8 @@ RefAccept(p, k) ==
   LET org == origin[p] IN
   RefAcceptOf(tree[p], IF org = Fresh THEN AbsentFile ELSE fork[org], org, p, k)
 
-HeadRules == UNION {{<<p, k>> : k \in 1..Len(tree[p].rules)} : p \in Paths}
+\* the rules `pint ci` lints at HEAD
+HeadRules == UNION {{<<p, k>> : k \in 1..Len(tree[p].rules)} : p \in Paths \ Excluded}
 
 StatesAt(ms, p, k) == {m.state : m \in {x \in ms : x.path = p /\ x.first = FirstLine(tree[p], k)
                                                    /\ x.last = LastLine(tree[p], k)}}
@@ -273,7 +283,7 @@ Sig(p, k, obs) ==
       acc   |-> RefAccept(p, k), obs |-> obs, path |-> p, k |-> k]
 
 Inv_C03 ==
-  phase = "branch" =>
+  (phase = "branch" /\ ~ambig) =>
     LET ms == ImplMarkers(tree, changes, MatchMode) IN \A pk \in HeadRules : RuleOK(ms, pk[1], pk[2])
 
 \* The known defect F5 (known_findings.json, C03): the greedy matcher lets an earlier HEAD rule without an identical
@@ -286,7 +296,7 @@ KnownF5(p, k) ==
   /\ StatesAt(ImplMarkers(tree, changes, "twopass"), p, k) = {"noop"}
 
 Inv_C03_known ==
-  phase = "branch" =>
+  (phase = "branch" /\ ~ambig) =>
     LET ms == ImplMarkers(tree, changes, MatchMode) IN
     \A pk \in HeadRules : RuleOK(ms, pk[1], pk[2]) \/ (MatchMode = "greedy" /\ KnownF5(pk[1], pk[2]))
 
@@ -365,7 +375,7 @@ DocWarnings ==
 
 DepsAsSets(ws) == {[path |-> w.path, first |-> w.first, last |-> w.last, deps |-> RangeOf(w.deps)] : w \in ws}
 
-Inv_C20 == phase = "branch" => DepsAsSets(ImplDeps(tree, changes, MatchMode)) = DocWarnings
+Inv_C20 == (phase = "branch" /\ ~ambig) => DepsAsSets(ImplDeps(tree, changes, MatchMode)) = DocWarnings
 
 -----------------------------------------------------------------------------
 (* Actions                                                                 *)
@@ -373,7 +383,7 @@ Init ==
   /\ phase = "fork"
   /\ fork = [p \in Paths |-> AbsentFile] /\ tree = [p \in Paths |-> AbsentFile]
   /\ changes = <<>>
-  /\ origin = [p \in Paths |-> NoPath] /\ tomb = [p \in Paths |-> NoPath]
+  /\ origin = [p \in Paths |-> NoPath] /\ tomb = [p \in Paths |-> NoPath] /\ ambig = FALSE
   /\ prevTree = [p \in Paths |-> AbsentFile]
   /\ lastNS = [status |-> "", src |-> NoPath, dst |-> NoPath]
   /\ ncommit = 0 /\ nbase = 0 /\ log = <<>>
@@ -385,23 +395,23 @@ ForkAppend(p, r) ==
   /\ phase = "fork"
   /\ Len(fork[p].rules) < MaxRules /\ CountRules(fork, Len(PathOrder)) < MaxForkRules
   /\ fork' = [fork EXCEPT ![p] = [present |-> TRUE, fdis |-> @.fdis, rules |-> Append(@.rules, r)]]
-  /\ UNCHANGED <<phase, tree, changes, origin, tomb, prevTree, lastNS, ncommit, nbase, log>>
+  /\ UNCHANGED <<phase, tree, changes, origin, tomb, ambig, prevTree, lastNS, ncommit, nbase, log>>
 
 ForkEmptyFile(p) ==
   /\ phase = "fork" /\ ~fork[p].present
   /\ fork' = [fork EXCEPT ![p] = EmptyFile]
-  /\ UNCHANGED <<phase, tree, changes, origin, tomb, prevTree, lastNS, ncommit, nbase, log>>
+  /\ UNCHANGED <<phase, tree, changes, origin, tomb, ambig, prevTree, lastNS, ncommit, nbase, log>>
 
 ForkFileDisable(p) ==
   /\ phase = "fork" /\ ForkFdis /\ fork[p].present /\ ~fork[p].fdis
   /\ fork' = [fork EXCEPT ![p].fdis = TRUE]
-  /\ UNCHANGED <<phase, tree, changes, origin, tomb, prevTree, lastNS, ncommit, nbase, log>>
+  /\ UNCHANGED <<phase, tree, changes, origin, tomb, ambig, prevTree, lastNS, ncommit, nbase, log>>
 
 StartBranch ==
   /\ phase = "fork" /\ \E p \in Paths : fork[p].present
   /\ phase' = "branch" /\ tree' = fork /\ prevTree' = fork
   /\ origin' = [p \in Paths |-> IF fork[p].present THEN p ELSE NoPath]
-  /\ UNCHANGED <<fork, changes, tomb, lastNS, ncommit, nbase, log>>
+  /\ UNCHANGED <<fork, changes, tomb, ambig, lastNS, ncommit, nbase, log>>
 
 Mk(op, st, src, dst, f) == [op |-> op, ns |-> [status |-> st, src |-> src, dst |-> dst], file |-> f]
 WithRules(f, rs) == [f EXCEPT !.rules = rs]
@@ -453,20 +463,23 @@ Candidates ==
   \cup (IF ~Has("FileDisableEdit") THEN {} ELSE
         {Mk("FileDisableEdit", "M", p, p, [tree[p] EXCEPT !.fdis = ~@]) : p \in Present})
   \cup (IF ~Has("AddFile") THEN {} ELSE
-        UNION {{Mk("AddFile", "A", p, p, f) : f \in NewFiles(p)} : p \in Paths \ Present})
+        UNION {{Mk("AddFile", "A", p, p, f) : f \in NewFiles(p)} : p \in (Paths \ Present) \ Excluded})
   \cup (IF ~Has("DeleteFile") THEN {} ELSE {Mk("DeleteFile", "D", p, p, AbsentFile) : p \in Present})
   \cup (IF ~Has("RenameFile") THEN {} ELSE
-        UNION {{Mk("RenameFile", "R", p, q, tree[p]) : q \in {x \in Paths \ Present : tomb[x] = NoPath}} : p \in Present})
+        UNION {{Mk("RenameFile", "R", p, q, tree[p]) : q \in {x \in (Paths \ Present) \ Excluded : tomb[x] = NoPath \/ TombRename}}
+               : p \in Present})
   \cup (IF ~Has("RevertLast") \/ ncommit = 0 THEN {} ELSE InverseOfLast)
 
 \* the commit is one well-formed file-level operation on the current tree
 ValidNS(t, o) ==
   CASE o.ns.status = "A" -> o.ns.src = o.ns.dst /\ ~t[o.ns.dst].present /\ o.file.present
+                            /\ o.ns.dst \notin Excluded             \* files are not created outside the linted set
     [] o.ns.status = "M" -> o.ns.src = o.ns.dst /\ t[o.ns.dst].present /\ o.file.present /\ o.file # t[o.ns.dst]
     [] o.ns.status = "D" -> o.ns.src = o.ns.dst /\ t[o.ns.src].present
     [] o.ns.status = "R" -> o.ns.src # o.ns.dst /\ t[o.ns.src].present /\ ~t[o.ns.dst].present
                             /\ o.file = t[o.ns.src]                 \* pure move: git reports R100
-                            /\ tomb[o.ns.dst] = NoPath              \* not onto a path deleted on this branch
+                            /\ (tomb[o.ns.dst] = NoPath \/ TombRename) \* onto a path deleted on this branch: ambig
+                            /\ o.ns.dst \notin Excluded             \* nor out of the linted set
     [] OTHER -> FALSE
 
 ApplyNS(t, o) ==
@@ -483,6 +496,7 @@ OriginAfter(o) ==
 TombAfter(o) ==
   CASE o.ns.status = "A" -> [tomb EXCEPT ![o.ns.dst] = NoPath]
     [] o.ns.status = "D" -> [tomb EXCEPT ![o.ns.src] = origin[o.ns.src]]
+    [] o.ns.status = "R" -> [tomb EXCEPT ![o.ns.dst] = NoPath]
     [] OTHER -> tomb
 
 Commit(o) ==
@@ -492,6 +506,7 @@ Commit(o) ==
      /\ tree' = t2
      /\ changes' = Fold(changes, o.ns, ncommit + 1, tree, t2)
   /\ origin' = OriginAfter(o) /\ tomb' = TombAfter(o)
+  /\ ambig' = (ambig \/ (o.ns.status = "R" /\ tomb[o.ns.dst] # NoPath))
   /\ prevTree' = tree /\ lastNS' = o.ns
   /\ ncommit' = ncommit + 1
   /\ log' = Append(log, o)
@@ -502,7 +517,7 @@ BaseAdvance(p) ==
   /\ phase = "branch" /\ Has("BaseAdvance") /\ nbase < MaxBaseAdv
   /\ nbase' = nbase + 1
   /\ log' = Append(log, Mk("BaseAdvance", "B", p, p, AbsentFile))
-  /\ UNCHANGED <<phase, fork, tree, changes, origin, tomb, prevTree, lastNS, ncommit>>
+  /\ UNCHANGED <<phase, fork, tree, changes, origin, tomb, ambig, prevTree, lastNS, ncommit>>
 
 Next ==
   \/ \E p \in Paths : \/ \E r \in NewRules : ForkAppend(p, r)
@@ -518,6 +533,7 @@ Hint ==
    dup   |-> \E pk \in HeadRules : Cardinality({j \in 1..Len(tree[pk[1]].rules) :
                                        Key(tree[pk[1]].rules[j]) = Key(tree[pk[1]].rules[pk[2]])}) >= 2,
    moved |-> \E p \in Paths : tree[p].present /\ origin[p] # p,
+   ambig |-> ambig,
    acc   |-> UNION {RefAccept(pk[1], pk[2]) : pk \in HeadRules}]
 EmitCase ==
   (phase = "branch" /\ ncommit + nbase >= 1) =>
